@@ -1,0 +1,18 @@
+//go:build verif
+
+package sunmd5
+
+import "reflect"
+
+// VerifSchemeType returns the struct type driven by the hash codec.
+func VerifSchemeType() reflect.Type { return reflect.TypeOf(scheme{}) }
+
+// VerifSaltSchemeType returns the struct type used to render the salt string.
+func VerifSaltSchemeType() reflect.Type { return reflect.TypeOf(saltScheme{}) }
+
+// VerifTables returns copies of the package tables.
+func VerifTables() (perm []byte, magic []byte) {
+	return append([]byte(nil), permFinal[:]...), append([]byte(nil), phrase...)
+}
+
+const VerifSumLength = sumLength
